@@ -123,29 +123,35 @@ def laws(payload):
         return [(key("task-construction-raises"), f"{type(e).__name__}: {e}"[:300])], True
     if task.space_dimension != dim:
         out.append((key("dimension"), f"space_dimension={task.space_dimension}, sum of sizes={dim}"))
-    # bounds
+    # bounds: one (lo, hi) per coordinate, equal to the declaring variable's own bounds (stand-alone variable built from
+    # the same declaration), lo <= hi
+    standalone_b = [tasks.build_variable(v) for v in vs]
     if not (has_perm and len(vs) > 1):
         try:
             lb, ub = task.get_bounds()
-            lb, ub = np.asarray(lb), np.asarray(ub)
-            if has_perm:
-                n = coords[0][1]
-                ok = lb.shape == ub.shape == (1, n) and np.all(lb == 0) and np.all((ub >= n - 1) & (ub < n))
-                if not ok:
-                    out.append((key("bounds"), f"permutation bounds lb={lb.tolist()} ub={ub.tolist()}"[:300]))
-            else:
-                if lb.shape != (dim,) or ub.shape != (dim,):
-                    out.append((key("bounds-shape"), f"shapes {lb.shape} {ub.shape} for dimension {dim}"))
+            lb, ub = np.asarray(lb, dtype=float), np.asarray(ub, dtype=float)
+            exp_lo, exp_hi = [], []
+            for sv in standalone_b:
+                lo_, hi_ = sv.get_bounds()
+                if sv.has_children():
+                    exp_lo.extend(float(x) for x in lo_); exp_hi.extend(float(x) for x in hi_)
                 else:
-                    for j, c in enumerate(coords):
-                        lo, hi = float(lb[j]), float(ub[j])
-                        if c[0] == "c":
-                            good = lo == c[1] and hi == c[2]
-                        else:
-                            good = lo == 0 and (hi == c[1] - 1 or (c[1] == 2 and 1 <= hi < 2))
-                        if not good or not lo <= hi:
-                            out.append((key("bounds"), f"coordinate {j}: ({lo!r}, {hi!r}) for declaration {c}"))
-                            break
+                    exp_lo.append(lo_); exp_hi.append(hi_)
+            exp_lo, exp_hi = np.asarray(exp_lo, dtype=float), np.asarray(exp_hi, dtype=float)
+            if lb.shape != exp_lo.shape or ub.shape != exp_hi.shape:
+                out.append((key("bounds-shape"), f"shapes {lb.shape} {ub.shape}, the variables declare {exp_lo.shape}"))
+            elif not (np.array_equal(lb, exp_lo) and np.array_equal(ub, exp_hi)):
+                j = int(np.argmax((lb != exp_lo) | (ub != exp_hi)))
+                out.append((key("bounds"), f"coordinate {j}: task reports ({lb.ravel()[j]!r}, {ub.ravel()[j]!r}), its "
+                                           f"variable declares ({exp_lo.ravel()[j]!r}, {exp_hi.ravel()[j]!r})"))
+            elif np.any(lb > ub):
+                out.append((key("bounds"), "a lower bound lies above its upper bound"))
+            else:
+                # and the variables' own bounds agree with the declaration
+                for j, c in enumerate(coords):
+                    if c[0] == "c" and not (lb[j] == c[1] and ub[j] == c[2]):
+                        out.append((key("bounds"), f"coordinate {j}: ({lb[j]!r}, {ub[j]!r}) for declaration {c}"))
+                        break
         except Exception as e:  # noqa: BLE001
             out.append((key("bounds-raises"), f"get_bounds(): {type(e).__name__}: {e}"[:300]))
     # random solutions
